@@ -604,6 +604,7 @@ inductive PcStep (b b' : BState) (i : Nat) : CPc → CPc → Prop where
   | upOverflow (k v w ttl rm e) : b.g.store.get? k = some e → upExpiry b.g.now ttl rm e.expiry = none →
       Ret b b' i (.panic .timeOverflow) → PcStep b b' i (.upUpdate k v w ttl rm) .idle
   | upFound (k v w ttl rm e exp) : b.g.store.get? k = some e → upExpiry b.g.now ttl rm e.expiry = some exp →
+      b'.g.store = b.g.store.set k { e with expiry := exp, value := v.getD e.value } →
       PcStep b b' i (.upUpdate k v w ttl rm) (.upWeightOf e.id (upsertW b.g.cfg v w ttl) e.expiry exp)
   | upWAdded (id uw n) : PcStep b b' i (.upWeightOf id uw none (some n)) (.upTtlPut id n (deriveAdd b id uw))
   | upWDeleted (id uw e) : PcStep b b' i (.upWeightOf id uw (some e) none) (.upTtlDelete id e (deriveDel b id uw))
@@ -748,7 +749,7 @@ theorem cact_frame {b b' : BState} {i : Nat} (h : CAct b i b') (hsh : b.g.shutti
       .upOverflow k v w ttl rm e h1 h2 rfl, fun h => absurd rfl h, fun _ => rfl⟩
   case upFound k v w ttl rm e exp hpc h1 h2 =>
     exact ⟨_, _, hpc, F rfl rfl rfl rfl rfl rfl rfl rfl, .none rfl rfl, rfl,
-      .upFound k v w ttl rm e exp h1 h2, fun _ => rfl, fun _ => rfl⟩
+      .upFound k v w ttl rm e exp h1 h2 rfl, fun _ => rfl, fun _ => rfl⟩
   case upWAdded id uw n hpc =>
     exact ⟨_, _, hpc, F rfl rfl rfl rfl rfl rfl rfl rfl, .none rfl rfl, rfl, .upWAdded id uw n, fun _ => rfl, fun _ => rfl⟩
   case upWDeleted id uw e hpc =>
@@ -1013,7 +1014,7 @@ theorem bud_client {D : Int} {β : Nat → Int} {b b' : BState} {i : Nat} (hb : 
       cases ttl <;>
         simp only [sumTo, sumTo_bump_ge β _ _ _ (Nat.le_refl _), bump_self, hb.zero b.g.nextId (Nat.le_refl _), CPc.pend] <;>
         omega
-  case upFound k v w ttl rm e exp he hx =>
+  case upFound k v w ttl rm e exp he hx _ =>
     have hid : e.id < b.g.nextId := by
       have hm : e.id ∈ usedIds b := by
         unfold usedIds
@@ -1993,6 +1994,1296 @@ theorem softInv_step {b b' : BState} {a : Act} {o o' : Oracle} {k : Nat} (hi : S
 theorem softInv_init (cfg : Cfg) (now : Nat) (seeds : List Nat) (clients : Nat) (sm : List (Nat × Nat)) (k : Nat) :
     SoftInv k { BState.init cfg now seeds clients with storeShard := sm } := by
   intro e hk; simp [BState.init, State.init] at hk
+
+
+/-! ## 8  from the issue of a write to its acknowledgement -/
+
+/-- the `q`-th action is the FIRST return of client `j` after the `p₀`-th action: `j` returns `out` there and has begun
+    no call strictly between `p₀` and `q` — it is the return of the call `j` began at `p₀` -/
+def FirstRet (h : List (BState × Act)) (b : BState) (j p₀ q : Nat) (out : Out) : Prop :=
+  p₀ < q ∧ Returned h b j q out ∧ ∀ q' r, p₀ < q' → q' < q → ¬ Issued h j r q'
+
+/-- client `j` is through with the call it began at `p₀`: it is idle, or has begun another call since -/
+def JDone (h : List (BState × Act)) (b : BState) (j p₀ : Nat) : Prop :=
+  b.cl[j]? = some .idle ∨ ∃ q r, p₀ < q ∧ Issued h j r q
+
+theorem at_cons_lt {h : List (BState × Act)} {y x : BState × Act} {n : Nat} (hn : n < h.length) :
+    At (y :: h) n x ↔ At h n x := by
+  rw [at_cons]
+  constructor
+  · rintro (⟨e, _⟩ | hx)
+    · omega
+    · exact hx
+  · exact Or.inr
+
+theorem at_cons_len {h : List (BState × Act)} {y x : BState × Act} : At (y :: h) h.length x ↔ x = y := by
+  rw [at_cons]
+  constructor
+  · rintro (⟨_, e⟩ | hx)
+    · exact e
+    · have := hx.lt; omega
+  · intro e; exact Or.inl ⟨rfl, e⟩
+
+theorem issued_cons_lt {h : List (BState × Act)} {y : BState × Act} {i n : Nat} {r : Req} (hn : n < h.length) :
+    Issued (y :: h) i r n ↔ Issued h i r n := by
+  unfold Issued
+  constructor
+  · rintro ⟨s, hx⟩; exact ⟨s, (at_cons_lt hn).mp hx⟩
+  · rintro ⟨s, hx⟩; exact ⟨s, (at_cons_lt hn).mpr hx⟩
+
+theorem issued_cons_len {h : List (BState × Act)} {b : BState} {a : Act} {i : Nat} {r : Req} :
+    Issued ((b, a) :: h) i r h.length ↔ a = .issue i r := by
+  unfold Issued
+  constructor
+  · rintro ⟨s, hx⟩
+    have := at_cons_len.mp hx
+    exact (congrArg Prod.snd this).symm
+  · intro e; exact ⟨b, at_cons_len.mpr (by rw [e])⟩
+
+theorem issued_lt {h : List (BState × Act)} {i n : Nat} {r : Req} (hi : Issued h i r n) : n < h.length := by
+  obtain ⟨s, hx⟩ := hi; exact hx.lt
+
+theorem returned_lt {h : List (BState × Act)} {b : BState} {i n : Nat} {out : Out} (hr : Returned h b i n out) :
+    n < h.length := by
+  obtain ⟨s, s', hx, _⟩ := hr; exact hx.lt
+
+theorem returned_cons_lt {h : List (BState × Act)} {b b' : BState} {a : Act} {i n : Nat} {out : Out}
+    (hr : Returned ((b, a) :: h) b' i n out) (hn : n < h.length) : Returned h b i n out := by
+  obtain ⟨s, s', hx, hst, h1, h2⟩ := hr
+  refine ⟨s, s', (at_cons_lt hn).mp hx, ?_, h1, h2⟩
+  rcases hst with ⟨e, _⟩ | ⟨a', ha'⟩
+  · simp only [List.length_cons] at e; omega
+  · by_cases hn1 : n + 1 = h.length
+    · rw [hn1] at ha'
+      have := at_cons_len.mp ha'
+      cases this
+      exact Or.inl ⟨hn1, rfl⟩
+    · exact Or.inr ⟨a', (at_cons_lt (by omega)).mp ha'⟩
+
+theorem returned_cons_len {h : List (BState × Act)} {b b' : BState} {a : Act} {i : Nat} {out : Out}
+    (hr : Returned ((b, a) :: h) b' i h.length out) :
+    a = .client i ∧ b'.cl[i]? = some .idle ∧ b'.res[i]? = some (out :: b.res.getD i []) := by
+  obtain ⟨s, s', hx, hst, h1, h2⟩ := hr
+  have := at_cons_len.mp hx
+  cases this
+  rcases hst with ⟨_, rfl⟩ | ⟨a', ha'⟩
+  · exact ⟨rfl, h1, h2⟩
+  · have := ha'.lt
+    simp only [List.length_cons] at this
+    omega
+
+theorem firstRet_le {h : List (BState × Act)} {b b' : BState} {a : Act} {j p₀ q : Nat} {out : Out}
+    (hf : FirstRet ((b, a) :: h) b' j p₀ q out) : q ≤ h.length := by
+  have := returned_lt hf.2.1
+  simp only [List.length_cons] at this
+  omega
+
+theorem firstRet_old {h : List (BState × Act)} {b b' : BState} {a : Act} {j p₀ q : Nat} {out : Out}
+    (hf : FirstRet ((b, a) :: h) b' j p₀ q out) (hq : q < h.length) : FirstRet h b j p₀ q out :=
+  ⟨hf.1, returned_cons_lt hf.2.1 hq, fun q' r h1 h2 hi => hf.2.2 q' r h1 h2 ((issued_cons_lt (by omega)).mpr hi)⟩
+
+theorem firstRet_new {h : List (BState × Act)} {b b' : BState} {a : Act} {j p₀ : Nat} {out : Out}
+    (hf : FirstRet ((b, a) :: h) b' j p₀ h.length out) :
+    a = .client j ∧ b'.cl[j]? = some .idle ∧ b'.res[j]? = some (out :: b.res.getD j []) ∧
+      ∀ q' r, p₀ < q' → q' < h.length → ¬ Issued h j r q' := by
+  obtain ⟨h1, h2, h3⟩ := returned_cons_len hf.2.1
+  exact ⟨h1, h2, h3, fun q' r hq1 hq2 hi => hf.2.2 q' r hq1 hq2 ((issued_cons_lt hq2).mpr hi)⟩
+
+/-- a client that acts is not idle -/
+theorem client_step_not_idle {b b' : BState} {j : Nat} {o o' : Oracle} (h : stepB b (.client j) o = .ok (b', o')) :
+    b.cl[j]? ≠ some .idle := by
+  intro hidle
+  simp [stepB, clientAct, hidle] at h
+
+/-- once through, always through -/
+theorem jdone_step {h : List (BState × Act)} {b b' : BState} {a : Act} {o o' : Oracle} {j p₀ : Nat}
+    (hd : JDone h b j p₀) (hp : p₀ < h.length) (hs : stepB b a o = .ok (b', o')) : JDone ((b, a) :: h) b' j p₀ := by
+  rcases hd with hidle | ⟨q, r, hq, hi⟩
+  · by_cases ha : a = .client j
+    · subst ha; exact absurd hidle (client_step_not_idle hs)
+    · by_cases hiss : ∃ r, a = .issue j r
+      · obtain ⟨r, rfl⟩ := hiss
+        exact Or.inr ⟨h.length, r, hp, issued_cons_len.mpr rfl⟩
+      · left
+        rw [other_threads_keep_pc hs ha (fun r e => hiss ⟨r, e⟩)]
+        exact hidle
+  · exact Or.inr ⟨q, r, hq, (issued_cons_lt (issued_lt hi)).mpr hi⟩
+
+/-- … and a client that is through does not return from that call again -/
+theorem jdone_no_new_ret {h : List (BState × Act)} {b b' : BState} {a : Act} {o o' : Oracle} {j p₀ : Nat} {out : Out}
+    (hd : JDone h b j p₀) (hs : stepB b a o = .ok (b', o')) (hf : FirstRet ((b, a) :: h) b' j p₀ h.length out) : False := by
+  obtain ⟨ha, _, _, hno⟩ := firstRet_new hf
+  subst ha
+  rcases hd with hidle | ⟨q, r, hq, hi⟩
+  · exact client_step_not_idle hs hidle
+  · exact hno q r hq (issued_lt hi) hi
+
+
+/-- the cell `hd` holds an answer other than `Accepted` — or is pending — and no command carrying `hd` is under way any
+    more: it will never hold `Accepted` -/
+def Stale (hd : Nat) (b : BState) : Prop :=
+  (∃ st, b.g.acks[hd]? = some st ∧ st ≠ .accepted) ∧ hd ∉ qHandles b.g.queue ∧ b.w.held ≠ some hd
+
+theorem stale_step {b b' : BState} {a : Act} {o o' : Oracle} {hd : Nat} (hs : Stale hd b)
+    (h : stepB b a o = .ok (b', o')) : Stale hd b' := by
+  obtain ⟨⟨st, hst, hne⟩, hq, hheld⟩ := hs
+  cases stepB_bstep h with
+  | worker _ hw =>
+    cases hw with
+    | take cmd hh q hq0 hq' hw0 hb hheld' ha hns =>
+      rw [hq0, qHandles_cons] at hq
+      refine ⟨⟨st, by rw [ha]; exact hst, hne⟩, ?_, ?_⟩
+      · rw [hq']; intro hm; exact hq (by simp [hm])
+      · rw [hheld']; intro e; subst e; exact hq (by simp)
+    | takeShutdown hh q hq0 hq' hw0 hw' ha =>
+      rw [hq0, qHandles_cons] at hq
+      refine ⟨⟨st, ?_, hne⟩, ?_, by rw [hw']; simp [WPc.held]⟩
+      · rw [ha, setAck_get_ne]
+        · exact hst
+        · intro e; subst e; exact hq (by simp)
+      · rw [hq']; intro hm; exact hq (by simp [hm])
+    | takeDrain cmd hh q hq0 hq' hw0 hw' ha =>
+      rw [hq0, qHandles_cons] at hq
+      refine ⟨⟨st, ?_, hne⟩, ?_, by rw [hw']; simp [WPc.held]⟩
+      · rw [ha, setAck_get_ne]
+        · exact hst
+        · intro e; subst e; exact hq (by simp)
+      · rw [hq']; intro hm; exact hq (by simp [hm])
+    | cont hb hb' hheld' hq' ha => exact ⟨⟨st, by rw [ha]; exact hst, hne⟩, by rw [hq']; exact hq, by rw [hheld']; exact hheld⟩
+    | complete st' hb hw' hq' hst' ha =>
+      refine ⟨⟨st, ?_, hne⟩, by rw [hq']; exact hq, by rw [hw']; simp [WPc.held]⟩
+      rw [ha, setAck_get_ne _ _ hheld]; exact hst
+    | die hb hw' hq' ha =>
+      exact ⟨⟨st, by rw [ha]; exact hst, hne⟩, by rw [hq']; simp [qHandles], by rw [hw']; simp [WPc.held]⟩
+  | client i _ hw hc _ =>
+    cases hc with
+    | none hq' ha => exact ⟨⟨st, by rw [ha]; exact hst, hne⟩, by rw [hq']; exact hq, by rw [hw]; exact hheld⟩
+    | spot st' hq' ha =>
+      exact ⟨⟨st, by rw [ha]; exact getElem?_append_some _ hst, hne⟩, by rw [hq']; exact hq, by rw [hw]; exact hheld⟩
+    | send cmd _ hq' ha =>
+      refine ⟨⟨st, by rw [ha]; exact getElem?_append_some _ hst, hne⟩, ?_, by rw [hw]; exact hheld⟩
+      rw [hq', qHandles_append_one]
+      simp only [Option.toList_some, List.mem_append, List.mem_singleton, not_or]
+      exact ⟨hq, by have := lt_of_getElem?_some hst; omega⟩
+    | sendShutdown _ _ hq' ha =>
+      refine ⟨⟨st, by rw [ha]; exact hst, hne⟩, ?_, by rw [hw]; exact hheld⟩
+      rw [hq', qHandles_append_one]; simpa using hq
+  | other _ hw hq' ha => exact ⟨⟨st, by rw [ha]; exact hst, hne⟩, by rw [hq']; exact hq, by rw [hw]; exact hheld⟩
+
+/-- the client stands in the tail of a `put_or_update` that CARRIES A WEIGHT (every value-carrying one does): the call
+    ends in a panic or in `cmd.send` of `UpdateWeight` — never in an acknowledgement answered on the spot -/
+def CPc.uwSome : CPc → Bool
+  | .upWeightOf _ (some _) _ _ | .upTtlPut _ _ (some _) | .upTtlDelete _ _ (some _) | .upTtlRemove _ _ _ (some _)
+  | .upTtlInsert _ _ (some _) => true
+  | .send (.updateWeight _ _) => true
+  | _ => false
+
+theorem uwSome_tail {pc : CPc} {id : Nat} (hu : pc.uwSome = true) (ht : pc.tail? = some (id, none)) : False := by
+  cases pc
+  case upWeightOf id' uw old new =>
+    cases uw with
+    | none => simp [CPc.uwSome] at hu
+    | some x =>
+      simp only [CPc.tail?] at ht
+      split at ht <;> simp at ht
+  case upTtlPut id' e uw => cases uw <;> simp [CPc.uwSome, CPc.tail?] at hu ht
+  case upTtlDelete id' e uw => cases uw <;> simp [CPc.uwSome, CPc.tail?] at hu ht
+  case upTtlInsert id' e uw => cases uw <;> simp [CPc.uwSome, CPc.tail?] at hu ht
+  all_goals simp [CPc.tail?] at ht
+
+/-- **the write has failed**: nothing dangerous for `k` is under way, the call's acknowledgement (if it got one) will
+    never hold `Accepted`, and client `j` is through with the call — or the worker is dead and `j` stands in the tail of
+    its `put_or_update`, which can only end in a panic or in `Err(CommandSendError)` -/
+structure WD (k j p₀ : Nat) (h : List (BState × Act)) (b : BState) : Prop where
+  safe : Safe k b
+  noAcc : ∀ q out, FirstRet h b j p₀ q out → ∀ hd st, out = .ack hd st → Stale hd b
+  done : JDone h b j p₀ ∨
+    (b.w = .dead ∧ (∃ pc, b.cl[j]? = some pc ∧ pc.uwSome = true) ∧ (∀ q out, ¬ FirstRet h b j p₀ q out) ∧
+      ∀ q r, p₀ < q → ¬ Issued h j r q)
+
+theorem res_head {b b' : BState} {i : Nat} {out out' : Out} (hr : Ret b b' i out)
+    (h : b'.res[i]? = some (out' :: b.res.getD i [])) : out' = out := by
+  rw [hr] at h
+  exact (res_set_head h).symm
+
+theorem wD_step {h : List (BState × Act)} {b b' : BState} {a : Act} {o o' : Oracle} {k j p₀ : Nat}
+    (hd : WD k j p₀ h b) (hp : p₀ < h.length) (hns : NoShut b) (hdi : DeadInv b) (hs : stepB b a o = .ok (b', o'))
+    (ha : ∀ i r, a = .issue i r → r.danger k = false) : WD k j p₀ ((b, a) :: h) b' := by
+  have hsafe := safe_step hd.safe hns hs ha
+  -- the acknowledgements of returns already in the history stay stale
+  have hold : ∀ q out, FirstRet ((b, a) :: h) b' j p₀ q out → q < h.length → ∀ hd' st, out = .ack hd' st → Stale hd' b' :=
+    fun q out hf hq hd' st e => stale_step (hd.noAcc q out (firstRet_old hf hq) hd' st e) hs
+  rcases hd.done with hdone | ⟨hdead, ⟨pc, hpc, hu⟩, hnoret, hnoiss⟩
+  · refine ⟨hsafe, ?_, Or.inl (jdone_step hdone hp hs)⟩
+    intro q out hf
+    rcases Nat.lt_or_ge q h.length with hq | hq
+    · exact hold q out hf hq
+    · have : q = h.length := Nat.le_antisymm (firstRet_le hf) hq
+      subst this
+      exact (jdone_no_new_ret hdone hs hf).elim
+  · -- the worker is dead, client `j` in the tail of its upsert
+    have hdead' : b'.w = .dead := dead_step hs hdead
+    by_cases haj : a = .client j
+    · subst haj
+      cases stepB_bact hs with
+      | client _ _ hc =>
+        obtain ⟨pc0, pc', hpc0, hf, hq, hsp, hstep, hres, hnid⟩ := cact_frame hc hns.flag (fun pc hpc => hns.cl j pc hpc)
+        rw [hpc] at hpc0; cases hpc0
+        have hcl' : b'.cl[j]? = some pc' := by
+          rw [hf.cl]; exact List.getElem?_set_self (List.getElem?_eq_some_iff.mp hpc).1
+        -- what the step can be
+        have key : (pc' = .idle ∧ ∃ out, Ret b b' j out ∧ ∀ hd' st, out ≠ .ack hd' st) ∨ pc'.uwSome = true := by
+          cases hstep <;> simp only [CPc.uwSome] at hu <;> try (first | cases hu | (right; rfl))
+          case sendDead => exact Or.inl ⟨rfl, _, ‹Ret b b' j .err›, fun _ _ e => by cases e⟩
+          case sendOk =>
+            exfalso
+            have : b.g.worker ≠ .dead := by assumption
+            exact this (hdi.mpr hdead)
+          case upWAdded id uw n => right; cases uw <;> simp_all [CPc.uwSome, deriveAdd]
+          case upWDeleted id uw e => right; cases uw <;> simp_all [CPc.uwSome, deriveDel]
+          case upWUpdated id uw e n _ => right; cases uw <;> simp_all [CPc.uwSome]
+          case upTtlRemove id old new uw => right; cases uw <;> simp_all [CPc.uwSome]
+          case tailPanic id w p _ _ => exact Or.inl ⟨rfl, _, ‹Ret b b' j (.panic p)›, fun _ _ e => by cases e⟩
+          case tailSpot =>
+            exact (uwSome_tail hu (by assumption)).elim
+        rcases key with ⟨rfl, out0, hret, hnack⟩ | hu'
+        · refine ⟨hsafe, ?_, Or.inl (Or.inl hcl')⟩
+          intro q out hfr
+          rcases Nat.lt_or_ge q h.length with hq' | hq'
+          · exact absurd (firstRet_old hfr hq') (hnoret q out)
+          · have : q = h.length := Nat.le_antisymm (firstRet_le hfr) hq'
+            subst this
+            obtain ⟨_, _, hr', _⟩ := firstRet_new hfr
+            have := res_head hret hr'
+            subst this
+            intro hd' st e
+            exact absurd e (hnack hd' st)
+        · refine ⟨hsafe, ?_, Or.inr ⟨hdead', ⟨pc', hcl', hu'⟩, ?_, ?_⟩⟩
+          · intro q out hfr
+            rcases Nat.lt_or_ge q h.length with hq' | hq'
+            · exact absurd (firstRet_old hfr hq') (hnoret q out)
+            · have : q = h.length := Nat.le_antisymm (firstRet_le hfr) hq'
+              subst this
+              obtain ⟨_, hidle, _, _⟩ := firstRet_new hfr
+              rw [hcl'] at hidle; cases hidle
+              cases hu'
+          · intro q out hfr
+            rcases Nat.lt_or_ge q h.length with hq' | hq'
+            · exact hnoret q out (firstRet_old hfr hq')
+            · have : q = h.length := Nat.le_antisymm (firstRet_le hfr) hq'
+              subst this
+              obtain ⟨_, hidle, _, _⟩ := firstRet_new hfr
+              rw [hcl'] at hidle; cases hidle
+              cases hu'
+          · intro q r hq' hi
+            rcases Nat.lt_or_ge q h.length with hq2 | hq2
+            · exact hnoiss q r hq' ((issued_cons_lt hq2).mp hi)
+            · have := issued_lt hi
+              simp only [List.length_cons] at this
+              have : q = h.length := by omega
+              subst this
+              cases issued_cons_len.mp hi
+    · -- another thread acts: client `j` stays where it is
+      have hiss : ∀ r, a ≠ .issue j r := by
+        intro r e
+        subst e
+        cases stepB_bact hs with
+        | issue _ _ hidle => rw [hpc] at hidle; cases hidle; cases hu
+      have hcl' : b'.cl[j]? = some pc := by rw [other_threads_keep_pc hs haj hiss]; exact hpc
+      have hnr' : ∀ q out, ¬ FirstRet ((b, a) :: h) b' j p₀ q out := by
+        intro q out hfr
+        rcases Nat.lt_or_ge q h.length with hq' | hq'
+        · exact hnoret q out (firstRet_old hfr hq')
+        · have : q = h.length := Nat.le_antisymm (firstRet_le hfr) hq'
+          subst this
+          exact haj (firstRet_new hfr).1
+      refine ⟨hsafe, fun q out hfr => absurd hfr (hnr' q out), Or.inr ⟨hdead', ⟨pc, hcl', hu⟩, hnr', ?_⟩⟩
+      intro q r hq' hi
+      rcases Nat.lt_or_ge q h.length with hq2 | hq2
+      · exact hnoiss q r hq' ((issued_cons_lt hq2).mp hi)
+      · have := issued_lt hi
+        simp only [List.length_cons] at this
+        have : q = h.length := by omega
+        subst this
+        exact hiss r (issued_cons_len.mp hi)
+
+
+/-- the put command of the write: in the queue, with handle `hd` — or in the worker's hands, up to `store.put` -/
+def ItemQ (k v hd : Nat) (b : BState) : Prop :=
+  b.w.danger k = false ∧ ∃ q1 q2 cmd, b.g.queue = q1 ++ (cmd, some hd) :: q2 ∧ cmdKV cmd = some (k, v) ∧
+    (∀ p ∈ q1, p.1.danger k = false) ∧ (∀ p ∈ q2, p.1.danger k = false)
+
+def ItemW (k v hd : Nat) (b : BState) : Prop :=
+  (∀ p ∈ b.g.queue, p.1.danger k = false) ∧
+    ∃ c, b.w.cmd? = some c ∧ b.w.danger k = true ∧ c.k = k ∧ c.v = v ∧ c.h = some hd
+
+/-- what a worker action makes of the write's command -/
+inductive ItemNext (k v hd : Nat) (b' : BState) : Prop where
+  | queued : ItemQ k v hd b' → ItemNext k v hd b'
+  | held : ItemW k v hd b' → ItemNext k v hd b'
+  | stored (e : Entry) : b'.w.danger k = false → (∀ p ∈ b'.g.queue, p.1.danger k = false) →
+      b'.g.store.get? k = some e → e.value = v → e.soft = false → ItemNext k v hd b'
+  | failed : b'.w.danger k = false → (∀ p ∈ b'.g.queue, p.1.danger k = false) → Stale hd b' → ItemNext k v hd b'
+
+theorem cmdKV_danger {cmd : Cmd} {k v : Nat} (h : cmdKV cmd = some (k, v)) : cmd.danger k = true := by
+  cases cmd <;> simp [cmdKV, Cmd.danger] at h ⊢ <;> exact h.1
+
+theorem itemQ_wtrans {b b' : BState} {k v hd : Nat} (hi : ItemQ k v hd b) (hH : HInv b) (hns : NoShut b)
+    (h : WTrans b b') : ItemNext k v hd b' := by
+  obtain ⟨hw, q1, q2, cmd, hq, hkv, h1, h2⟩ := hi
+  have hmem : hd ∈ qHandles b.g.queue := mem_qHandles.mpr ⟨cmd, by rw [hq]; simp⟩
+  have hpend := hH.queued hd hmem
+  -- the worker dies: the command is dropped, its cell stays pending for ever
+  have die : b'.w = .dead → b'.g.queue = [] → b'.g.acks = b.g.acks → ItemNext k v hd b' := by
+    intro e1 e2 e3
+    refine .failed (by rw [e1]; rfl) (by rw [e2]; simp) ⟨⟨.pending, by rw [e3]; exact hpend, by simp⟩, ?_, ?_⟩
+    · rw [e2]; simp [qHandles]
+    · rw [e1]; simp [WPc.held]
+  -- the command stays where it is
+  have stay : b'.g.queue = b.g.queue → b'.w.danger k = false → ItemNext k v hd b' := by
+    intro e1 e2
+    exact .queued ⟨e2, q1, q2, cmd, by rw [e1]; exact hq, hkv, h1, h2⟩
+  -- the worker takes the head of the queue
+  have take : ∀ (c0 : Cmd) (h0 : Option Nat) (q : List (Cmd × Option Nat)), b.g.queue = (c0, h0) :: q →
+      b'.g.queue = q → (b'.w.danger k = c0.danger k) →
+      (c0.danger k = true → ∃ c, b'.w.cmd? = some c ∧ c0 = cmdOfPut c ∧ c.h = h0) → ItemNext k v hd b' := by
+    intro c0 h0 q hq0 hq' hdw hput
+    cases q1 with
+    | nil =>
+      rw [hq0] at hq
+      simp only [List.nil_append, List.cons.injEq, Prod.mk.injEq] at hq
+      obtain ⟨⟨rfl, rfl⟩, rfl⟩ := hq
+      have hdg := cmdKV_danger hkv
+      obtain ⟨c, hc, hce, hch⟩ := hput hdg
+      subst hce
+      rw [cmdKV_cmdOfPut] at hkv
+      simp only [Option.some.injEq, Prod.mk.injEq] at hkv
+      exact .held ⟨by rw [hq']; exact h2, c, hc, by rw [hdw]; exact hdg, hkv.1, hkv.2, hch⟩
+    | cons x q1' =>
+      rw [hq0] at hq
+      simp only [List.cons_append, List.cons.injEq] at hq
+      obtain ⟨rfl, rfl⟩ := hq
+      have hx := h1 (c0, h0) List.mem_cons_self
+      exact .queued ⟨by rw [hdw]; exact hx, q1', q2, cmd, hq', hkv, fun p hp => h1 p (List.mem_cons_of_mem _ hp), h2⟩
+  cases h
+  case recvPut c q hw' hq' =>
+    exact take _ _ q hq' rfl (by simp [WPc.danger, danger_cmdOfPut]) (fun _ => ⟨c, rfl, rfl, rfl⟩)
+  case recvUpdate id w hh q hw' hq' =>
+    exact take _ _ q hq' rfl rfl (fun e => by simp [Cmd.danger] at e)
+  case recvDelete k0 hh q hw' hq' =>
+    refine take _ _ q hq' rfl rfl (fun e => ?_)
+    exfalso
+    cases q1 with
+    | nil =>
+      rw [hq'] at hq
+      simp only [List.nil_append, List.cons.injEq, Prod.mk.injEq] at hq
+      obtain ⟨⟨rfl, _⟩, _⟩ := hq
+      simp [cmdKV] at hkv
+    | cons x q1' =>
+      rw [hq'] at hq
+      simp only [List.cons_append, List.cons.injEq] at hq
+      obtain ⟨rfl, _⟩ := hq
+      have := h1 _ List.mem_cons_self
+      rw [this] at e; cases e
+  case recvShutdown hh q hw' hq' =>
+    exact absurd rfl (hns.queue (.shutdown, hh) (by rw [hq']; exact List.mem_cons_self))
+  case drain cmd0 hh q hw' hq' => exact absurd hw' hns.w
+  case storePutPanic => exact die rfl rfl rfl
+  case updatePanic => exact die rfl rfl rfl
+  all_goals
+    refine stay (by simp [finishCmd, rejectCmd, ttlPut, ttlDelete]) ?_
+    first
+      | rfl
+      | (rw [‹b.w = _›] at hw; exact hw)
+
+
+theorem itemW_wtrans {b b' : BState} {k v hd : Nat} (hi : ItemW k v hd b) (hH : HInv b) (h : WTrans b b') :
+    ItemNext k v hd b' := by
+  obtain ⟨hq, c, hc, hdg, hck, hcv, hch⟩ := hi
+  have hheld : b.w.held = some hd := by
+    rw [← hch]
+    cases hw : b.w <;> rw [hw] at hc <;> simp [WPc.cmd?] at hc <;> subst hc <;> rfl
+  obtain ⟨hpend, hnq⟩ := hH.held hd hheld
+  have hlt := lt_of_getElem?_some hpend
+  -- the command goes on
+  have go : b'.g.queue = b.g.queue → b'.w.cmd? = some c → b'.w.danger k = true → ItemNext k v hd b' :=
+    fun e1 e2 e3 => .held ⟨by rw [e1]; exact hq, c, e2, e3, hck, hcv, hch⟩
+  -- the command is answered with a status other than `Accepted`
+  have fail : ∀ st, st ≠ .accepted → b'.w = .recv → b'.g.queue = b.g.queue →
+      b'.g.acks = setAck b.g.acks (some hd) st → ItemNext k v hd b' := by
+    intro st hst e1 e2 e3
+    refine .failed (by rw [e1]; rfl) (by rw [e2]; exact hq) ⟨⟨st, by rw [e3]; exact setAck_get_self _ _ hlt, hst⟩, ?_, ?_⟩
+    · rw [e2]; exact hnq
+    · rw [e1]; simp [WPc.held]
+  have die : b'.w = .dead → b'.g.queue = [] → b'.g.acks = b.g.acks → ItemNext k v hd b' := by
+    intro e1 e2 e3
+    refine .failed (by rw [e1]; rfl) (by rw [e2]; simp) ⟨⟨.pending, by rw [e3]; exact hpend, by simp⟩, ?_, ?_⟩
+    · rw [e2]; simp [qHandles]
+    · rw [e1]; simp [WPc.held]
+  cases h
+  case presentExists c0 hw =>
+    rw [hw] at hc; simp only [WPc.cmd?, Option.some.injEq] at hc; subst hc
+    exact fail (.rejected .keyAlreadyExists) (by simp) rfl rfl (by simp [finishCmd, hch])
+  case presentHeavy c0 hw =>
+    rw [hw] at hc; simp only [WPc.cmd?, Option.some.injEq] at hc; subst hc
+    exact fail (.rejected .tooHeavy) (by simp) rfl rfl (by simp [finishCmd, rejectCmd, hch])
+  case initReject c0 e space hw =>
+    rw [hw] at hc; simp only [WPc.cmd?, Option.some.injEq] at hc; subst hc
+    exact fail (.rejected .noSpace) (by simp) rfl rfl (by simp [finishCmd, rejectCmd, hch])
+  case fillReject c0 e s space hw =>
+    rw [hw] at hc; simp only [WPc.cmd?, Option.some.injEq] at hc; subst hc
+    exact fail (.rejected .noSpace) (by simp) rfl rfl (by simp [finishCmd, rejectCmd, hch])
+  case emptyReject c0 hw _ =>
+    rw [hw] at hc; simp only [WPc.cmd?, Option.some.injEq] at hc; subst hc
+    exact fail (.rejected .noSpace) (by simp) rfl rfl (by simp [finishCmd, rejectCmd, hch])
+  case storePutPanic => exact die rfl rfl rfl
+  case updatePanic => exact die rfl rfl rfl
+  case storePutPlain c0 hw _ _ =>
+    rw [hw] at hc; simp only [WPc.cmd?, Option.some.injEq] at hc; subst hc
+    refine .stored { value := c0.v, id := c0.id, expiry := none, soft := false } rfl hq ?_ hcv rfl
+    simp [finishCmd, hck]
+  case storePutTtl c0 t e hw _ _ =>
+    rw [hw] at hc; simp only [WPc.cmd?, Option.some.injEq] at hc; subst hc
+    refine .stored { value := c0.v, id := c0.id, expiry := some e, soft := false } rfl hq ?_ hcv rfl
+    simp [hck]
+  all_goals
+    rw [‹b.w = _›] at hc hdg
+    first
+      | (simp [WPc.cmd?] at hc; done)
+      | (simp [WPc.danger] at hdg; done)
+      | (simp only [WPc.cmd?, Option.some.injEq] at hc; subst hc
+         exact go (by simp) rfl hdg)
+
+
+theorem QEff.queue_eq {b b' : BState} {pc : CPc} (h : QEff b b' pc) (hp : ∀ cmd, pc ≠ .send cmd) :
+    b'.g.queue = b.g.queue := by
+  cases h with
+  | none hq _ => exact hq
+  | spot st hq _ _ => exact hq
+  | send cmd he _ _ _ => exact absurd he (hp cmd)
+
+/-- the call of client `j` is still under way, before its write point -/
+structure WA1 (k v j p₀ : Nat) (h : List (BState × Act)) (b : BState) : Prop where
+  pc : ∃ pc, b.cl[j]? = some pc ∧ pcKV pc = some (k, v)
+  others : ∀ (i : Nat) (pc : CPc), b.cl[i]? = some pc → i ≠ j → pc.danger k = false
+  queue : ∀ p ∈ b.g.queue, p.1.danger k = false
+  w : b.w.danger k = false
+  noRet : ∀ q out, ¬ FirstRet h b j p₀ q out
+  noIssue : ∀ q r, p₀ < q → ¬ Issued h j r q
+
+/-- the call has returned `Ok(ack hd)` with the cell pending; its put command waits or is being applied -/
+structure WA2 (k v j p₀ hd : Nat) (h : List (BState × Act)) (b : BState) : Prop where
+  cl : ∀ (i : Nat) (pc : CPc), b.cl[i]? = some pc → pc.danger k = false
+  item : ItemQ k v hd b ∨ ItemW k v hd b
+  done : JDone h b j p₀
+  ret : ∀ q out, FirstRet h b j p₀ q out → out = .ack hd .pending
+
+/-- **where a write of `(k, v)` issued by client `j` at `p₀` stands** -/
+inductive WPhase (k v j p₀ : Nat) (h : List (BState × Act)) (b : BState) : Prop where
+  | calling : WA1 k v j p₀ h b → WPhase k v j p₀ h b
+  | queued (hd : Nat) : WA2 k v j p₀ hd h b → WPhase k v j p₀ h b
+  | kept : Kept k v b → WPhase k v j p₀ h b
+  | failed : WD k j p₀ h b → WPhase k v j p₀ h b
+
+theorem wA2_step {cfg : Cfg} {now0 : Nat} {seeds : List Nat} {clients : Nat} {h : List (BState × Act)} {b b' : BState}
+    {a : Act} {o o' : Oracle} {k v j p₀ hd : Nat} (h2 : WA2 k v j p₀ hd h b) (hp : p₀ < h.length)
+    (hr : Reach cfg now0 seeds clients b) (hns : NoShut b) (hns' : NoShut b') (hE : EvInv b k) (hlive : LiveK k b)
+    (hs : stepB b a o = .ok (b', o')) (ha : ∀ i r, a = .issue i r → r.danger k = false) :
+    WPhase k v j p₀ ((b, a) :: h) b' := by
+  have hret' : ∀ q out, FirstRet ((b, a) :: h) b' j p₀ q out → out = .ack hd .pending := by
+    intro q out hf
+    rcases Nat.lt_or_ge q h.length with hq | hq
+    · exact h2.ret q out (firstRet_old hf hq)
+    · have : q = h.length := Nat.le_antisymm (firstRet_le hf) hq
+      subst this
+      exact (jdone_no_new_ret h2.done hs hf).elim
+  have hdone' := jdone_step h2.done hp hs
+  cases stepB_bact hs with
+  | issue i r hidle =>
+    refine .queued hd ⟨?_, h2.item, hdone', hret'⟩
+    intro i' pc hj
+    rcases getElem?_set_cases hj with ⟨_, rfl⟩ | ⟨_, hj⟩
+    · exact ha i r rfl
+    · exact h2.cl i' pc hj
+  | client i _ hc =>
+    obtain ⟨pc, pc', hpc, hf, hq, hsp, hstep, hres, hnid⟩ := cact_frame hc hns.flag (fun pc hpc => hns.cl i pc hpc)
+    have hpcs := h2.cl i pc hpc
+    refine .queued hd ⟨?_, ?_, hdone', hret'⟩
+    · intro i' pci hj
+      rw [hf.cl] at hj
+      rcases getElem?_set_cases hj with ⟨_, rfl⟩ | ⟨_, hj⟩
+      · exact pcstep_danger hstep hpcs
+      · exact h2.cl i' pci hj
+    · -- the queue grows at the tail by a command that is not dangerous
+      have hqq : b'.g.queue = b.g.queue ∨ ∃ p, b'.g.queue = b.g.queue ++ [p] ∧ p.1.danger k = false := by
+        cases hq with
+        | none hq _ => exact Or.inl hq
+        | spot st hq _ _ => exact Or.inl hq
+        | send cmd he _ hq _ => subst he; exact Or.inr ⟨_, hq, hpcs⟩
+      rcases h2.item with ⟨hw, q1, q2, cmd, hqe, hkv, hh1, hh2⟩ | ⟨hqs, c, hc1, hc2, hc3⟩
+      · left
+        rcases hqq with e | ⟨p, e, hp'⟩
+        · exact ⟨by rw [hf.w]; exact hw, q1, q2, cmd, by rw [e]; exact hqe, hkv, hh1, hh2⟩
+        · refine ⟨by rw [hf.w]; exact hw, q1, q2 ++ [p], cmd, by rw [e, hqe]; simp, hkv, hh1, ?_⟩
+          intro x hx
+          rcases List.mem_append.mp hx with hx | hx
+          · exact hh2 x hx
+          · simp only [List.mem_singleton] at hx; subst hx; exact hp'
+      · right
+        refine ⟨?_, c, by rw [hf.w]; exact hc1, by rw [hf.w]; exact hc2, hc3⟩
+        rcases hqq with e | ⟨p, e, hp'⟩
+        · rw [e]; exact hqs
+        · rw [e]
+          intro x hx
+          rcases List.mem_append.mp hx with hx | hx
+          · exact hqs x hx
+          · simp only [List.mem_singleton] at hx; subst hx; exact hp'
+  | worker _ hw =>
+    have hH := hinv_reach hr
+    have hcl := (wtrans_cl hw).1
+    have hnext : ItemNext k v hd b' := by
+      rcases h2.item with hi | hi
+      · exact itemQ_wtrans hi hH hns hw
+      · exact itemW_wtrans hi hH hw
+    cases hnext with
+    | queued hi => exact .queued hd ⟨by rw [hcl]; exact h2.cl, Or.inl hi, hdone', hret'⟩
+    | held hi => exact .queued hd ⟨by rw [hcl]; exact h2.cl, Or.inr hi, hdone', hret'⟩
+    | stored e hw' hq' hk hv hsoft =>
+      exact .kept ⟨⟨by rw [hcl]; exact h2.cl, hq', hw'⟩, evinv_step_live hr hE hlive hns'.flag hs, e, hk, hv, hsoft⟩
+    | failed hw' hq' hst =>
+      refine .failed ⟨⟨by rw [hcl]; exact h2.cl, hq', hw'⟩, ?_, Or.inl hdone'⟩
+      intro q out hf hd' st e
+      have := hret' q out hf
+      rw [this] at e
+      cases e
+      exact hst
+  | sweeper vv _ hsw =>
+    obtain ⟨e1, e2, e3, _, _, _⟩ := strans_frame hsw
+    refine .queued hd ⟨by rw [e2]; exact h2.cl, ?_, hdone', hret'⟩
+    unfold ItemQ ItemW
+    rw [e1, e3]; exact h2.item
+  | consumer g' hg =>
+    refine .queued hd ⟨h2.cl, ?_, hdone', hret'⟩
+    unfold ItemQ ItemW
+    show (_ ∧ ∃ q1 q2 cmd, g'.queue = _ ∧ _) ∨ ((∀ p ∈ g'.queue, _) ∧ _)
+    have : g'.queue = b.g.queue := by rw [hg]
+    rw [this]; exact h2.item
+  | advance d => exact .queued hd ⟨h2.cl, h2.item, hdone', hret'⟩
+
+
+theorem pcKV_danger {pc : CPc} {k v : Nat} (h : pcKV pc = some (k, v)) : pc.danger k = true := by
+  cases pc with
+  | start r =>
+    cases r with
+    | putW k' v' w ttl =>
+      simp only [pcKV, Option.some.injEq, Prod.mk.injEq] at h
+      simp [CPc.danger, Req.danger, h.1]
+    | upsert k' v' w ttl rm =>
+      cases v' with
+      | none => simp [pcKV] at h
+      | some x =>
+        simp only [pcKV, Option.some.injEq, Prod.mk.injEq] at h
+        simp [CPc.danger, Req.danger, h.1]
+    | _ => simp [pcKV] at h
+  | putPresent k' v' w ttl =>
+    simp only [pcKV, Option.some.injEq, Prod.mk.injEq] at h
+    simp [CPc.danger, h.1]
+  | idNext k' v' w ttl =>
+    simp only [pcKV, Option.some.injEq, Prod.mk.injEq] at h
+    simp [CPc.danger, h.1]
+  | send cmd => exact cmdKV_danger h
+  | upUpdate k' v' w ttl rm =>
+    cases v' with
+    | none => simp [pcKV] at h
+    | some x =>
+      simp only [pcKV, Option.some.injEq, Prod.mk.injEq] at h
+      simp [CPc.danger, h.1]
+  | _ => simp [pcKV] at h
+
+theorem pcKV_tail {pc : CPc} {kv : Nat × Nat} {x : Nat × Option Int} (h : pcKV pc = some kv) (ht : pc.tail? = some x) :
+    False := by
+  cases pc <;> simp [CPc.tail?] at ht <;> simp [pcKV] at h
+
+theorem pcKV_not_idle {pc : CPc} {k v : Nat} (h : pcKV pc = some (k, v)) : pc ≠ .idle := by
+  intro e; subst e; simp [pcKV] at h
+
+theorem upsertW_some (cfg : Cfg) (v : Nat) (w : Option Int) (ttl : Option Nat) : ∃ x, upsertW cfg (some v) w ttl = some x := by
+  cases w <;> simp [upsertW]
+
+theorem wA1_step {cfg : Cfg} {now0 : Nat} {seeds : List Nat} {clients : Nat} {h : List (BState × Act)} {b b' : BState}
+    {a : Act} {o o' : Oracle} {k v j p₀ : Nat} (h1 : WA1 k v j p₀ h b) (hp : p₀ < h.length)
+    (hr : Reach cfg now0 seeds clients b) (hns : NoShut b) (hns' : NoShut b') (hdi : DeadInv b) (hsf : SoftInv k b)
+    (hE : EvInv b k) (hlive : LiveK k b) (hs : stepB b a o = .ok (b', o'))
+    (ha : ∀ i r, a = .issue i r → r.danger k = false) : WPhase k v j p₀ ((b, a) :: h) b' := by
+  obtain ⟨pc, hpcj, hkv⟩ := h1.pc
+  have hH := hinv_reach hr
+  -- returns and issues already in the history
+  have hnoRetOld : ∀ q out, FirstRet ((b, a) :: h) b' j p₀ q out → q < h.length → False :=
+    fun q out hf hq => h1.noRet q out (firstRet_old hf hq)
+  have hnoIssOld : ∀ q r, p₀ < q → Issued ((b, a) :: h) j r q → q < h.length → False :=
+    fun q r hq hi hlt => h1.noIssue q r hq ((issued_cons_lt hlt).mp hi)
+  -- the action is not client `j`'s: `j` stays where it is, nothing returns, nothing is issued by `j`
+  have other : a ≠ .client j → (∀ r, a ≠ .issue j r) → b'.cl[j]? = some pc →
+      (∀ (i : Nat) (pci : CPc), b'.cl[i]? = some pci → i ≠ j → pci.danger k = false) →
+      (∀ p ∈ b'.g.queue, p.1.danger k = false) → b'.w.danger k = false → WPhase k v j p₀ ((b, a) :: h) b' := by
+    intro haj hiss hcl' hoth hq' hw'
+    refine .calling ⟨⟨pc, hcl', hkv⟩, hoth, hq', hw', ?_, ?_⟩
+    · intro q out hf
+      rcases Nat.lt_or_ge q h.length with hq | hq
+      · exact hnoRetOld q out hf hq
+      · have : q = h.length := Nat.le_antisymm (firstRet_le hf) hq
+        subst this
+        exact haj (firstRet_new hf).1
+    · intro q r hq hi
+      rcases Nat.lt_or_ge q h.length with hlt | hge
+      · exact hnoIssOld q r hq hi hlt
+      · have := issued_lt hi
+        simp only [List.length_cons] at this
+        have : q = h.length := by omega
+        subst this
+        exact hiss r (issued_cons_len.mp hi)
+  cases stepB_bact hs with
+  | issue i r hidle =>
+    have hij : i ≠ j := by
+      intro e; subst e
+      rw [hpcj] at hidle; cases hidle
+      exact pcKV_not_idle hkv rfl
+    refine other (by simp) (fun r' e => by cases e; exact hij rfl) ?_ ?_ h1.queue h1.w
+    · show (b.cl.set i _)[j]? = _
+      rw [List.getElem?_set_ne hij]; exact hpcj
+    · intro i' pci hj hne
+      rcases getElem?_set_cases hj with ⟨_, rfl⟩ | ⟨_, hj⟩
+      · exact ha i r rfl
+      · exact h1.others i' pci hj hne
+  | worker _ hw =>
+    exact other (by simp) (by simp) (by rw [(wtrans_cl hw).1]; exact hpcj)
+      (by rw [(wtrans_cl hw).1]; exact h1.others) (fun p hp' => h1.queue p ((wtrans_prov hw).1 p hp'))
+      (wtrans_danger hw h1.w h1.queue)
+  | sweeper vv _ hsw =>
+    obtain ⟨e1, e2, e3, _, _, _⟩ := strans_frame hsw
+    exact other (by simp) (by simp) (by rw [e2]; exact hpcj) (by rw [e2]; exact h1.others) (by rw [e3]; exact h1.queue)
+      (by rw [e1]; exact h1.w)
+  | consumer g' hg =>
+    exact other (by simp) (by simp) hpcj h1.others (by show ∀ p ∈ g'.queue, _; rw [hg]; exact h1.queue) h1.w
+  | advance d => exact other (by simp) (by simp) hpcj h1.others h1.queue h1.w
+  | client i _ hc =>
+    obtain ⟨pci, pc', hpci, hf, hq, hsp, hstep, hres, hnid⟩ := cact_frame hc hns.flag (fun pc hpc => hns.cl i pc hpc)
+    by_cases hij : i ≠ j
+    · -- another client
+      have hsafe := h1.others i pci hpci hij
+      refine other (by simp [hij]) (by simp) (by rw [hf.cl, List.getElem?_set_ne hij]; exact hpcj) ?_ ?_
+        (by rw [hf.w]; exact h1.w)
+      · intro i' pcx hj hne
+        rw [hf.cl] at hj
+        rcases getElem?_set_cases hj with ⟨_, rfl⟩ | ⟨_, hj⟩
+        · exact pcstep_danger hstep hsafe
+        · exact h1.others i' pcx hj hne
+      · intro p hp'
+        cases hq with
+        | none hq _ => rw [hq] at hp'; exact h1.queue p hp'
+        | spot st hq _ _ => rw [hq] at hp'; exact h1.queue p hp'
+        | send cmd he _ hq _ =>
+          rw [hq] at hp'
+          rcases List.mem_append.mp hp' with hp' | hp'
+          · exact h1.queue p hp'
+          · simp only [List.mem_singleton] at hp'
+            subst hp' he
+            exact hsafe
+    · -- client `j` itself
+      have hij : i = j := Classical.byContradiction hij
+      subst hij
+      rw [hpcj] at hpci; cases hpci
+      have hcl' : b'.cl[i]? = some pc' := by
+        rw [hf.cl]; exact List.getElem?_set_self (List.getElem?_eq_some_iff.mp hpcj).1
+      have hoth' : ∀ (i' : Nat) (pcx : CPc), b'.cl[i']? = some pcx → i' ≠ i → pcx.danger k = false := by
+        intro i' pcx hj hne
+        rw [hf.cl, List.getElem?_set_ne (Ne.symm hne)] at hj
+        exact h1.others i' pcx hj hne
+      have hw' : b'.w.danger k = false := by rw [hf.w]; exact h1.w
+      -- (1) the call goes on, still before its write point
+      have goOn : pcKV pc' = some (k, v) → (∀ cmd, pc ≠ .send cmd) → WPhase k v i p₀ ((b, .client i) :: h) b' := by
+        intro hkv' hnsend
+        refine .calling ⟨⟨pc', hcl', hkv'⟩, hoth', by rw [hq.queue_eq hnsend]; exact h1.queue, hw', ?_, ?_⟩
+        · intro q out hfr
+          rcases Nat.lt_or_ge q h.length with hq' | hq'
+          · exact hnoRetOld q out hfr hq'
+          · have : q = h.length := Nat.le_antisymm (firstRet_le hfr) hq'
+            subst this
+            have := (firstRet_new hfr).2.1
+            rw [hcl'] at this; cases this
+            exact pcKV_not_idle hkv' rfl
+        · intro q r hq' hi
+          rcases Nat.lt_or_ge q h.length with hlt | hge
+          · exact hnoIssOld q r hq' hi hlt
+          · have := issued_lt hi
+            simp only [List.length_cons] at this
+            have : q = h.length := by omega
+            subst this
+            cases issued_cons_len.mp hi
+      -- nothing dangerous is left once `j` has left the call (or its dangerous part)
+      have safe' : pc'.danger k = false → b'.g.queue = b.g.queue → Safe k b' := by
+        intro hd' hqe
+        refine ⟨?_, by rw [hqe]; exact h1.queue, hw'⟩
+        intro i' pcx hj
+        by_cases hne : i' = i
+        · subst hne; rw [hcl'] at hj; cases hj; exact hd'
+        · exact hoth' i' pcx hj hne
+      -- (2) the call returns without having written
+      have failRet : ∀ out, pc' = .idle → Ret b b' i out → (∀ cmd, pc ≠ .send cmd) →
+          (∀ hd st, out = .ack hd st → Stale hd b') → WPhase k v i p₀ ((b, .client i) :: h) b' := by
+        intro out hidle hret hnsend hst
+        subst hidle
+        refine .failed ⟨safe' rfl (hq.queue_eq hnsend), ?_, Or.inl (Or.inl hcl')⟩
+        intro q out' hfr
+        rcases Nat.lt_or_ge q h.length with hq' | hq'
+        · exact (hnoRetOld q out' hfr hq').elim
+        · have : q = h.length := Nat.le_antisymm (firstRet_le hfr) hq'
+          subst this
+          have := res_head hret (firstRet_new hfr).2.2.1
+          subst this
+          exact hst
+      cases hstep
+      case startPutBad k' v' w ttl hw0 hret =>
+        exact failRet _ rfl hret (by intro _ e; cases e) (by intro _ _ e; cases e)
+      case startPut k' v' w ttl hw0 => exact goOn hkv (by intro _ e; cases e)
+      case startUpsert k' v' w ttl rm => exact goOn (by cases v' <;> exact hkv) (by intro _ e; cases e)
+      case putPresentHit k' v' w ttl hc' hret hqe hae =>
+        refine failRet _ rfl hret (by intro _ e; cases e) ?_
+        intro hd st e
+        cases e
+        refine ⟨⟨.rejected .keyAlreadyExists, by rw [hae]; simp, by simp⟩, ?_, ?_⟩
+        · rw [hqe]; intro hm; exact Nat.lt_irrefl _ (hH.lt_queued hm)
+        · rw [hf.w]; intro e; exact Nat.lt_irrefl _ (hH.lt_held e)
+      case putPresentOk k' v' w ttl hc' => exact goOn hkv (by intro _ e; cases e)
+      case idNext k' v' w ttl hn =>
+        exact goOn (by cases ttl <;> exact hkv) (by intro _ e; cases e)
+      case sendDead cmd hwd hret =>
+        refine .failed ⟨?_, ?_, Or.inl (Or.inl hcl')⟩
+        · refine ⟨?_, ?_, hw'⟩
+          · intro i' pcx hj
+            by_cases hne : i' = i
+            · subst hne; rw [hcl'] at hj; cases hj; rfl
+            · exact hoth' i' pcx hj hne
+          · cases hq with
+            | none hq _ => rw [hq]; exact h1.queue
+            | spot st hq _ _ => rw [hq]; exact h1.queue
+            | send cmd' _ hnd _ _ => exact absurd hwd hnd
+        · intro q out' hfr
+          rcases Nat.lt_or_ge q h.length with hq' | hq'
+          · exact (hnoRetOld q out' hfr hq').elim
+          · have : q = h.length := Nat.le_antisymm (firstRet_le hfr) hq'
+            subst this
+            have := res_head hret (firstRet_new hfr).2.2.1
+            subst this
+            intro hd st e; cases e
+      case sendOk cmd hwd hret hqe hae =>
+        refine .queued b.g.acks.length ⟨?_, Or.inl ⟨hw', b.g.queue, [], cmd, hqe, hkv, h1.queue, by simp⟩, Or.inl hcl', ?_⟩
+        · intro i' pcx hj
+          by_cases hne : i' = i
+          · subst hne; rw [hcl'] at hj; cases hj; rfl
+          · exact hoth' i' pcx hj hne
+        · intro q out' hfr
+          rcases Nat.lt_or_ge q h.length with hq' | hq'
+          · exact (hnoRetOld q out' hfr hq').elim
+          · have : q = h.length := Nat.le_antisymm (firstRet_le hfr) hq'
+            subst this
+            exact res_head hret (firstRet_new hfr).2.2.1
+      case upAbsentPut k' v' w ttl rm val weight hn hv hu hpos =>
+        subst hv
+        exact goOn hkv (by intro _ e; cases e)
+      case upAbsentPanic k' v' w ttl rm p hn hret =>
+        exact failRet _ rfl hret (by intro _ e; cases e) (by intro _ _ e; cases e)
+      case upOverflow k' v' w ttl rm e he hx hret =>
+        exact failRet _ rfl hret (by intro _ e; cases e) (by intro _ _ e; cases e)
+      case upFound k' v' w ttl rm e exp he hx hst =>
+        cases v' with
+        | none => simp [pcKV] at hkv
+        | some v0 =>
+          simp only [pcKV, Option.some.injEq, Prod.mk.injEq] at hkv
+          obtain ⟨rfl, rfl⟩ := hkv
+          have hqe : b'.g.queue = b.g.queue := hq.queue_eq (by intro _ e; cases e)
+          have hsafe' := safe' rfl hqe
+          cases hso : e.soft with
+          | false =>
+            exact .kept ⟨hsafe', evinv_step_live hr hE hlive hns'.flag hs,
+              { e with expiry := exp, value := (some v0).getD e.value }, by rw [hst, AMap.get?_set_same], rfl, hso⟩
+          | true =>
+            -- a marked entry with no `Delete` under way: the worker is dead, the call will end in `Err`
+            have hdead : b.w = .dead := by
+              rcases hsf e he hso with (⟨i', hi'⟩ | ⟨hh, hm⟩ | ⟨hh, hw0⟩) | hd
+              · have hne : i' ≠ i := by intro e0; subst e0; rw [hpcj] at hi'; cases hi'
+                have := h1.others i' _ hi' hne
+                simp [CPc.danger, Cmd.danger] at this
+              · have := h1.queue _ hm
+                simp [Cmd.danger] at this
+              · have := h1.w
+                rw [hw0] at this
+                simp [WPc.danger] at this
+              · exact hd
+            obtain ⟨x, hx'⟩ := upsertW_some b.g.cfg v0 w ttl
+            refine .failed ⟨hsafe', ?_, Or.inr ⟨by rw [hf.w]; exact hdead, ⟨_, hcl', by simp [CPc.uwSome, hx']⟩, ?_, ?_⟩⟩
+            · intro q out' hfr
+              rcases Nat.lt_or_ge q h.length with hq' | hq'
+              · exact (hnoRetOld q out' hfr hq').elim
+              · have : q = h.length := Nat.le_antisymm (firstRet_le hfr) hq'
+                subst this
+                have := (firstRet_new hfr).2.1
+                rw [hcl'] at this; cases this
+            · intro q out' hfr
+              rcases Nat.lt_or_ge q h.length with hq' | hq'
+              · exact hnoRetOld q out' hfr hq'
+              · have : q = h.length := Nat.le_antisymm (firstRet_le hfr) hq'
+                subst this
+                have := (firstRet_new hfr).2.1
+                rw [hcl'] at this; cases this
+            · intro q r hq' hi
+              rcases Nat.lt_or_ge q h.length with hlt | hge
+              · exact hnoIssOld q r hq' hi hlt
+              · have := issued_lt hi
+                simp only [List.length_cons] at this
+                have : q = h.length := by omega
+                subst this
+                cases issued_cons_len.mp hi
+      all_goals first
+        | (simp [pcKV] at hkv; done)
+        | exact (pcKV_tail hkv (by assumption)).elim
+
+
+/-! ### along a run -/
+
+theorem noShut_run {cfg : Cfg} {now : Nat} {seeds : List Nat} {clients : Nat} {sm : List (Nat × Nat)} {b : BState}
+    {h : List (BState × Act)} (hrun : RunH { BState.init cfg now seeds clients with storeShard := sm } h b)
+    (hns : NoShutdownReq h) : NoShut b ∧ DeadInv b ∧ ∀ k, SoftInv k b := by
+  induction hrun with
+  | nil => exact ⟨noShut_init cfg now seeds clients sm, deadInv_init cfg now seeds clients sm,
+      fun k => softInv_init cfg now seeds clients sm k⟩
+  | @step b1 b' h1 a o o' hrun' hs ih =>
+    obtain ⟨h1', h2', h3'⟩ := ih (fun p hp => hns p (List.mem_cons_of_mem _ hp))
+    exact ⟨noShut_step h1' hs (fun i => hns (b1, a) List.mem_cons_self i), deadInv_step h2' h1' hs,
+      fun k => softInv_step (h3' k) h2' h1' hs⟩
+
+/-- **from the issue of a write of `(k, v)` on**: along a run from the initial state on which no `shutdown()` is
+    requested and the worker never enters the eviction loop — the write `req` issued by client `j` at `p₀` in a state in
+    which nothing dangerous for `k` is under way and the sweeper is not carrying through the eviction of a revived entry
+    of `k`; no other put / delete / value-carrying upsert of `k` issued since; the entry of `k` live in every state since —
+    the write is in one of the four phases. -/
+theorem wphase_run {cfg : Cfg} {now : Nat} {seeds : List Nat} {clients : Nat} {sm : List (Nat × Nat)} {b : BState}
+    {h : List (BState × Act)} {k v j p₀ : Nat} {req : Req}
+    (hrun : RunH { BState.init cfg now seeds clients with storeShard := sm } h b) (hns : NoShutdownReq h)
+    (hev : ∀ p ∈ h, p.1.w.evicting = false)
+    (hW : ∀ s a, At h p₀ (s, a) → a = .issue j req ∧ Safe k s ∧ EvInv s k) (hreq : WritesReq req k v)
+    (hnd : ∀ q s i r, p₀ < q → At h q (s, .issue i r) → r.danger k = false)
+    (hlive : ∀ q s a, p₀ ≤ q → At h q (s, a) → LiveK k s) (hp : p₀ < h.length) :
+    WPhase k v j p₀ h b ∧ EvInv b k := by
+  induction hrun with
+  | nil => simp at hp
+  | @step b1 b' h1 a o o' hrun' hs ih =>
+    have hsub : Sub h1 ((b1, a) :: h1) := Sub.cons _ _
+    have hns1 : NoShutdownReq h1 := fun p hp' => hns p (List.mem_cons_of_mem _ hp')
+    obtain ⟨hn1, hd1, hs1⟩ := noShut_run hrun' hns1
+    have hn' := (noShut_run (.step hrun' hs) hns).1
+    have hr1 := swB_reach_run (.init sm) hrun'
+    have hlast : At ((b1, a) :: h1) h1.length (b1, a) := at_cons_self _ _
+    have hev1 : b1.w.evicting = false := hev (b1, a) List.mem_cons_self
+    simp only [List.length_cons] at hp
+    rcases Nat.lt_or_ge p₀ h1.length with hlt | hge
+    · -- the write was issued earlier
+      obtain ⟨hph, hE1⟩ := ih hns1 (fun p hp' => hev p (List.mem_cons_of_mem _ hp'))
+        (fun s a' hx => hW s a' (hsub.at hx)) (fun q s i r hq hx => hnd q s i r hq (hsub.at hx))
+        (fun q s a' hq hx => hlive q s a' hq (hsub.at hx)) hlt
+      have hl1 : LiveK k b1 := hlive h1.length b1 a (Nat.le_of_lt hlt) hlast
+      have ha : ∀ i r, a = .issue i r → r.danger k = false := by
+        intro i r e; subst e; exact hnd h1.length b1 i r hlt hlast
+      refine ⟨?_, evinv_step_live hr1 hE1 hl1 hn'.flag hs⟩
+      cases hph with
+      | calling hA1 => exact wA1_step hA1 hlt hr1 hn1 hn' hd1 (hs1 k) hE1 hl1 hs ha
+      | queued hd hA2 => exact wA2_step hA2 hlt hr1 hn1 hn' hE1 hl1 hs ha
+      | kept hk => exact .kept (kept_step hr1 hk hn1 hn' hev1 hl1 hs ha)
+      | failed hD => exact .failed (wD_step hD hlt hn1 hd1 hs ha)
+    · -- this action is the issue of the write
+      have hpe : p₀ = h1.length := by omega
+      subst hpe
+      obtain ⟨rfl, hsafe, hE1⟩ := hW b1 a hlast
+      have hl1 : LiveK k b1 := hlive h1.length b1 _ (Nat.le_refl _) hlast
+      refine ⟨?_, evinv_step_live hr1 hE1 hl1 hn'.flag hs⟩
+      cases stepB_bact hs with
+      | issue _ _ hidle =>
+        have hlen : j < b1.cl.length := (List.getElem?_eq_some_iff.mp hidle).1
+        refine .calling ⟨⟨.start req, List.getElem?_set_self hlen, ?_⟩, ?_, hsafe.queue, hsafe.w, ?_, ?_⟩
+        · rcases hreq with ⟨w, ttl, rfl⟩ | ⟨w, ttl, rm, rfl⟩ <;> rfl
+        · intro i pc hj hne
+          rw [show (setClient b1 j (.start req)).cl = b1.cl.set j (.start req) from rfl,
+            List.getElem?_set_ne (Ne.symm hne)] at hj
+          exact hsafe.cl i pc hj
+        · intro q out hf
+          have := firstRet_le hf
+          have := hf.1
+          omega
+        · intro q r hq hi
+          have := issued_lt hi
+          simp only [List.length_cons] at this
+          omega
+
+
+/-- the write was acknowledged `Accepted`: it is in the phase `kept` -/
+theorem wphase_accepted {h : List (BState × Act)} {b : BState} {k v j p₀ : Nat} (hph : WPhase k v j p₀ h b)
+    (hH : HInv b) (hacc : ∃ q hd st, FirstRet h b j p₀ q (.ack hd st) ∧ b.g.acks[hd]? = some .accepted) : Kept k v b := by
+  obtain ⟨q, hd, st, hf, ha⟩ := hacc
+  cases hph with
+  | calling h1 => exact (h1.noRet q _ hf).elim
+  | queued hd' h2 =>
+    exfalso
+    have := h2.ret q _ hf
+    cases this
+    have hpend : b.g.acks[hd]? = some .pending := by
+      rcases h2.item with ⟨_, q1, q2, cmd, hq, _⟩ | ⟨_, c, hc, _, _, _, hch⟩
+      · exact hH.queued hd (mem_qHandles.mpr ⟨cmd, by rw [hq]; simp⟩)
+      · refine (hH.held hd ?_).1
+        rw [← hch]
+        cases hw : b.w <;> rw [hw] at hc <;> simp [WPc.cmd?] at hc <;> subst hc <;> rfl
+    rw [hpend] at ha; cases ha
+  | kept hk => exact hk
+  | failed hD =>
+    exfalso
+    obtain ⟨⟨st', hs', hne⟩, _, _⟩ := hD.noAcc q _ hf hd st rfl
+    rw [hs'] at ha
+    cases ha
+    exact hne rfl
+
+/-- the `n`-th action of a run splits its history -/
+theorem runH_at_append {b0 b : BState} {h : List (BState × Act)} (hrun : RunH b0 h b) {n : Nat} {x : BState × Act}
+    (hx : At h n x) : ∃ h1 h0, h = h1 ++ x :: h0 ∧ h0.length = n ∧ RunH b0 h0 x.1 := by
+  induction hrun with
+  | nil => exact absurd hx.lt (by simp)
+  | @step b1 b' h1' a1 o o' hrun' hs ih =>
+    rcases at_cons.mp hx with ⟨rfl, rfl⟩ | hx1
+    · exact ⟨[], h1', rfl, rfl, hrun'⟩
+    · obtain ⟨h2, h0, e, hl, hr0⟩ := ih hx1
+      exact ⟨(b1, a1) :: h2, h0, by rw [e]; rfl, hl, hr0⟩
+
+theorem sub_append (h0 : List (BState × Act)) : ∀ h1 : List (BState × Act), Sub h0 (h1 ++ h0)
+  | [] => Sub.refl h0
+  | y :: h1 => (sub_append h0 h1).trans (Sub.cons _ _)
+
+/-- a return recorded in a run is a return of the run up to any later action -/
+theorem returned_restrict {h0 h : List (BState × Act)} {b s₁ : BState} {a₁ : Act} {i q : Nat} {out : Out}
+    (hsub : Sub h0 h) (hat : At h h0.length (s₁, a₁)) (hr : Returned h b i q out) (hq : q < h0.length) :
+    Returned h0 s₁ i q out := by
+  obtain ⟨s, s', hx, hst, h1, h2⟩ := hr
+  refine ⟨s, s', (hsub q _).mpr ⟨hq, hx⟩, ?_, h1, h2⟩
+  rcases hst with ⟨e, _⟩ | ⟨a', ha'⟩
+  · have := hat.lt; omega
+  · by_cases hq1 : q + 1 = h0.length
+    · rw [hq1] at ha'
+      have := ha'.inj hat
+      cases this
+      exact Or.inl ⟨hq1, rfl⟩
+    · exact Or.inr ⟨a', (hsub _ _).mpr ⟨by omega, ha'⟩⟩
+
+theorem firstRet_restrict {h0 h : List (BState × Act)} {b s₁ : BState} {a₁ : Act} {j p₀ q : Nat} {out : Out}
+    (hsub : Sub h0 h) (hat : At h h0.length (s₁, a₁)) (hf : FirstRet h b j p₀ q out) (hq : q < h0.length) :
+    FirstRet h0 s₁ j p₀ q out :=
+  ⟨hf.1, returned_restrict hsub hat hf.2.1 hq, fun q' r h1 h2 hi => hf.2.2 q' r h1 h2 (hi.sub hsub)⟩
+
+
+/-! ### stability of an answer; the eviction invariant from the birth of an incarnation -/
+
+/-- an answer recorded in a state of the run is still there at its end -/
+theorem acks_stable_run {cfg : Cfg} {now : Nat} {seeds : List Nat} {clients : Nat} {sm : List (Nat × Nat)} {b : BState}
+    {h : List (BState × Act)} (hrun : RunH { BState.init cfg now seeds clients with storeShard := sm } h b)
+    {n hd : Nat} {s : BState} {a : Act} {st : Status} (hx : At h n (s, a)) (hs : s.g.acks[hd]? = some st)
+    (hne : st ≠ .pending) : b.g.acks[hd]? = some st := by
+  induction hrun with
+  | nil => exact absurd hx.lt (by simp)
+  | @step b1 b' h1 a1 o o' hrun' hst ih =>
+    have hH := hinv_reach (swB_reach_run (.init sm) hrun')
+    have hb1 : b1.g.acks[hd]? = some st := by
+      rcases at_cons.mp hx with ⟨_, e⟩ | hx1
+      · cases e; exact hs
+      · exact ih hx1
+    exact (C11_layerB_acks_grow hH hst).2 hd st hb1 hne
+
+/-- the `store.put` of a put of `k` establishes `EvInv` for `k`: the sweeper cannot be carrying through the eviction of
+    the key id that is being born -/
+theorem evinv_birth {cfg : Cfg} {now0 : Nat} {seeds : List Nat} {clients : Nat} {b b' : BState} {a : Act} {o o' : Oracle}
+    {k : Nat} (hr : Reach cfg now0 seeds clients b) (hsh : b.g.shutting = false) (hs : stepB b a o = .ok (b', o'))
+    (hp : isPutAny k (b, a)) : EvInv b' k := by
+  obtain ⟨v, id, hput⟩ := hp
+  have hj := bbij_reach hr hsh
+  obtain ⟨exp, he⟩ := put_effect hs hput
+  obtain ⟨ha, c, _, hw, _, _, hid, _⟩ := hput
+  simp only at ha hw hid
+  subst ha
+  have hsw := (swB_other_step hs (fun v hv => by cases hv)).1
+  intro e' n hk' hev'
+  rw [he] at hk'; cases hk'
+  exfalso
+  rw [eview_congr hsw] at hev'
+  obtain ⟨sh, rest, wk, hsub⟩ := eview_some.mp hev'
+  simp only at hsub
+  have hev : b.sw.evicting? = some (id, wk) := by
+    rcases hsub with hsub | hsub <;> rw [hsub] <;> rfl
+  have h0 := (hj.sEvictStale id wk hev).2.1
+  have : 0 < occ b id := by rw [← hid]; simp [occ, WPc.freshId?, hw]
+  omega
+
+/-- **`EvInv` from the birth of an incarnation**: if the `c`-th action is a `store.put` of `k` (that stores) and in every
+    state after it the entry of `k` is live, `EvInv` holds for `k` at the end of the run -/
+theorem evinv_run_born {cfg : Cfg} {now : Nat} {seeds : List Nat} {clients : Nat} {sm : List (Nat × Nat)} {b : BState}
+    {h : List (BState × Act)} {k c : Nat} (hrun : RunH { BState.init cfg now seeds clients with storeShard := sm } h b)
+    (hns : NoShutdownReq h) (hc : c < h.length) (hb : ∀ x, At h c x → isPutAny k x)
+    (hl : ∀ q s a, c < q → At h q (s, a) → LiveK k s) : EvInv b k := by
+  induction hrun with
+  | nil => simp at hc
+  | @step b1 b' h1 a o o' hrun' hs ih =>
+    have hsub : Sub h1 ((b1, a) :: h1) := Sub.cons _ _
+    have hns1 : NoShutdownReq h1 := fun p hp' => hns p (List.mem_cons_of_mem _ hp')
+    have hn1 := (noShut_run hrun' hns1).1
+    have hn' := (noShut_run (.step hrun' hs) hns).1
+    have hr1 := swB_reach_run (.init sm) hrun'
+    have hlast : At ((b1, a) :: h1) h1.length (b1, a) := at_cons_self _ _
+    simp only [List.length_cons] at hc
+    rcases Nat.lt_or_ge c h1.length with hlt | hge
+    · have hE1 := ih hns1 hlt (fun x hx => hb x (hsub.at hx)) (fun q s a' hq hx => hl q s a' hq (hsub.at hx))
+      exact evinv_step_live hr1 hE1 (hl h1.length b1 a hlt hlast) hn'.flag hs
+    · have : c = h1.length := by omega
+      subst this
+      exact evinv_birth hr1 hn1.flag hs (hb _ hlast)
+
+
+/-! ## 9  where a dangerous item comes from: the bridge from "operations on the key one after another" to `Safe` -/
+
+/-- the command with handle `hd` was sent by a put / delete / value-carrying upsert of `k` that has returned
+    `Ok(ack hd)`, pending -/
+def Traced (k : Nat) (h : List (BState × Act)) (b : BState) (hd : Nat) : Prop :=
+  ∃ i p r, Issued h i r p ∧ r.danger k = true ∧ JDone h b i p ∧ ∀ q out, FirstRet h b i p q out → out = .ack hd .pending
+
+theorem traced_step {h : List (BState × Act)} {b b' : BState} {a : Act} {o o' : Oracle} {k hd : Nat}
+    (ht : Traced k h b hd) (hs : stepB b a o = .ok (b', o')) : Traced k ((b, a) :: h) b' hd := by
+  obtain ⟨i, p, r, hi, hd', hdone, hret⟩ := ht
+  have hp := issued_lt hi
+  refine ⟨i, p, r, (issued_cons_lt hp).mpr hi, hd', jdone_step hdone hp hs, ?_⟩
+  intro q out hf
+  rcases Nat.lt_or_ge q h.length with hq | hq
+  · exact hret q out (firstRet_old hf hq)
+  · have : q = h.length := Nat.le_antisymm (firstRet_le hf) hq
+    subst this
+    exact (jdone_no_new_ret hdone hs hf).elim
+
+/-- **Provenance.**  Every dangerous item for `k` belongs to a call of the history that is not yet answered: a client at a
+    dangerous position is inside a dangerous call it began at some `p` and has not returned from; a dangerous command in
+    the queue or in the worker's hands was sent by a dangerous call that returned `Ok(ack hd)` with `hd` its handle. -/
+structure Prov (k : Nat) (h : List (BState × Act)) (b : BState) : Prop where
+  cl : ∀ (i : Nat) (pc : CPc), b.cl[i]? = some pc → pc.danger k = true →
+    ∃ p r, Issued h i r p ∧ r.danger k = true ∧ (∀ q r', p < q → ¬ Issued h i r' q) ∧ ∀ q out, ¬ FirstRet h b i p q out
+  queue : ∀ x ∈ b.g.queue, x.1.danger k = true → ∃ hd, x.2 = some hd ∧ Traced k h b hd
+  w : b.w.danger k = true → ∃ hd, b.w.held = some hd ∧ Traced k h b hd
+
+/-- a worker action that does not take a command keeps a dangerous position's handle -/
+theorem wtrans_danger_held {b b' : BState} {k : Nat} (h : WTrans b b') (hnr : b.w ≠ .recv) (hd : b'.w.danger k = true) :
+    b.w.danger k = true ∧ b'.w.held = b.w.held := by
+  cases h
+  case recvPut hw _ => exact absurd hw hnr
+  case recvUpdate hw _ => exact absurd hw hnr
+  case recvDelete hw _ => exact absurd hw hnr
+  case recvShutdown hw _ => exact absurd hw hnr
+  all_goals first
+    | (simp [finishCmd, rejectCmd, WPc.danger] at hd; done)
+    | (rw [‹b.w = _›]; exact ⟨hd, rfl⟩)
+
+theorem prov_step {h : List (BState × Act)} {b b' : BState} {a : Act} {o o' : Oracle} {k : Nat} (hi : Prov k h b)
+    (hns : NoShut b) (hs : stepB b a o = .ok (b', o')) : Prov k ((b, a) :: h) b' := by
+  -- a client that does not act keeps its data
+  have keep : ∀ (i : Nat) (pc : CPc), b.cl[i]? = some pc → pc.danger k = true → a ≠ .client i → (∀ r, a ≠ .issue i r) →
+      ∃ p r, Issued ((b, a) :: h) i r p ∧ r.danger k = true ∧ (∀ q r', p < q → ¬ Issued ((b, a) :: h) i r' q) ∧
+        ∀ q out, ¬ FirstRet ((b, a) :: h) b' i p q out := by
+    intro i pc hpc hd hac hai
+    obtain ⟨p, r, hiss, hrd, hno, hnr⟩ := hi.cl i pc hpc hd
+    have hp := issued_lt hiss
+    refine ⟨p, r, (issued_cons_lt hp).mpr hiss, hrd, ?_, ?_⟩
+    · intro q r' hq hi'
+      rcases Nat.lt_or_ge q h.length with hlt | hge
+      · exact hno q r' hq ((issued_cons_lt hlt).mp hi')
+      · have := issued_lt hi'
+        simp only [List.length_cons] at this
+        have : q = h.length := by omega
+        subst this
+        exact hai r' (issued_cons_len.mp hi')
+    · intro q out hf
+      rcases Nat.lt_or_ge q h.length with hlt | hge
+      · exact hnr q out (firstRet_old hf hlt)
+      · have : q = h.length := Nat.le_antisymm (firstRet_le hf) hge
+        subst this
+        exact hac (firstRet_new hf).1
+  have hqold : ∀ x ∈ b.g.queue, x.1.danger k = true → ∃ hd, x.2 = some hd ∧ Traced k ((b, a) :: h) b' hd := by
+    intro x hx hd
+    obtain ⟨hd', e, ht⟩ := hi.queue x hx hd
+    exact ⟨hd', e, traced_step ht hs⟩
+  cases stepB_bact hs with
+  | issue i r hidle =>
+    refine ⟨?_, hqold, fun hd => by obtain ⟨hd', e, ht⟩ := hi.w hd; exact ⟨hd', e, traced_step ht hs⟩⟩
+    intro i' pc hj hd
+    rcases getElem?_set_cases hj with ⟨rfl, rfl⟩ | ⟨hne, hj⟩
+    · refine ⟨h.length, r, issued_cons_len.mpr rfl, hd, ?_, ?_⟩
+      · intro q r' hq hi'
+        have := issued_lt hi'
+        simp only [List.length_cons] at this
+        omega
+      · intro q out hf
+        have := firstRet_le hf
+        have := hf.1
+        omega
+    · exact keep i' pc hj hd (by simp) (by intro r' e; cases e; exact hne rfl)
+  | client i _ hc =>
+    obtain ⟨pc, pc', hpc, hf, hq, hsp, hstep, hres, hnid⟩ := cact_frame hc hns.flag (fun pc hpc => hns.cl i pc hpc)
+    refine ⟨?_, ?_, fun hd => by
+      rw [hf.w] at hd ⊢; obtain ⟨hd', e, ht⟩ := hi.w hd; exact ⟨hd', e, traced_step ht hs⟩⟩
+    · intro i' pcx hj hd
+      rw [hf.cl] at hj
+      rcases getElem?_set_cases hj with ⟨rfl, rfl⟩ | ⟨hne, hj⟩
+      · -- the acting client: still inside its dangerous call
+        have hdpc : pc.danger k = true := by
+          cases hdp : pc.danger k with
+          | true => rfl
+          | false => rw [pcstep_danger hstep hdp] at hd; cases hd
+        obtain ⟨p, r, hiss, hrd, hno, hnr⟩ := hi.cl i' pc hpc hdpc
+        have hp := issued_lt hiss
+        refine ⟨p, r, (issued_cons_lt hp).mpr hiss, hrd, ?_, ?_⟩
+        · intro q r' hq' hi'
+          rcases Nat.lt_or_ge q h.length with hlt | hge
+          · exact hno q r' hq' ((issued_cons_lt hlt).mp hi')
+          · have := issued_lt hi'
+            simp only [List.length_cons] at this
+            have : q = h.length := by omega
+            subst this
+            cases issued_cons_len.mp hi'
+        · intro q out hfr
+          rcases Nat.lt_or_ge q h.length with hlt | hge
+          · exact hnr q out (firstRet_old hfr hlt)
+          · have : q = h.length := Nat.le_antisymm (firstRet_le hfr) hge
+            subst this
+            have hidle := (firstRet_new hfr).2.1
+            rw [hf.cl, List.getElem?_set_self (List.getElem?_eq_some_iff.mp hpc).1] at hidle
+            cases hidle
+            cases hd
+      · exact keep i' pcx hj hd (by intro e; cases e; exact hne rfl) (by simp)
+    · intro x hx hd
+      cases hq with
+      | none hq _ => rw [hq] at hx; exact hqold x hx hd
+      | spot st hq _ _ => rw [hq] at hx; exact hqold x hx hd
+      | send cmd he hwd hq _ =>
+        rw [hq] at hx
+        rcases List.mem_append.mp hx with hx | hx
+        · exact hqold x hx hd
+        · simp only [List.mem_singleton] at hx
+          subst hx he
+          obtain ⟨p, r, hiss, hrd, hno, hnr⟩ := hi.cl i _ hpc hd
+          have hp := issued_lt hiss
+          -- the call returns `Ok(ack)` with the new handle
+          have hidle : pc' = .idle ∧ Ret b b' i (.ack b.g.acks.length .pending) := by
+            cases hstep
+            case sendDead hwd' _ => exact absurd hwd' hwd
+            case sendOk _ hret _ _ => exact ⟨rfl, hret⟩
+            all_goals tail_absurd
+          obtain ⟨rfl, hret⟩ := hidle
+          have hcl' : b'.cl[i]? = some .idle := by
+            rw [hf.cl]; exact List.getElem?_set_self (List.getElem?_eq_some_iff.mp hpc).1
+          refine ⟨b.g.acks.length, rfl, i, p, r, (issued_cons_lt hp).mpr hiss, hrd, Or.inl hcl', ?_⟩
+          intro q out hfr
+          rcases Nat.lt_or_ge q h.length with hlt | hge
+          · exact (hnr q out (firstRet_old hfr hlt)).elim
+          · have : q = h.length := Nat.le_antisymm (firstRet_le hfr) hge
+            subst this
+            exact res_head hret (firstRet_new hfr).2.2.1
+  | worker _ hw =>
+    have hcl := (wtrans_cl hw).1
+    refine ⟨?_, fun x hx hd => hqold x ((wtrans_prov hw).1 x hx) hd, ?_⟩
+    · intro i pc hj hd
+      rw [hcl] at hj
+      exact keep i pc hj hd (by simp) (by simp)
+    · intro hd
+      by_cases hrecv : b.w = .recv
+      · cases hw
+        case recvPut c q hw' hq' =>
+          have hx : (cmdOfPut c, c.h) ∈ b.g.queue := by rw [hq']; exact List.mem_cons_self
+          obtain ⟨hd', e, ht⟩ := hqold _ hx (by rw [danger_cmdOfPut]; exact hd)
+          exact ⟨hd', e, ht⟩
+        case recvDelete k0 hh q hw' hq' =>
+          have hx : (Cmd.delete k0, hh) ∈ b.g.queue := by rw [hq']; exact List.mem_cons_self
+          obtain ⟨hd', e, ht⟩ := hqold _ hx hd
+          exact ⟨hd', e, ht⟩
+        all_goals first
+          | (simp [WPc.danger, finishCmd, rejectCmd] at hd; done)
+          | (rw [hrecv] at *; simp_all)
+      · obtain ⟨hdb, hheld⟩ := wtrans_danger_held hw hrecv hd
+        obtain ⟨hd', e, ht⟩ := hi.w hdb
+        exact ⟨hd', by rw [hheld]; exact e, traced_step ht hs⟩
+  | sweeper vv _ hsw =>
+    obtain ⟨e1, e2, e3, _, _, _⟩ := strans_frame hsw
+    refine ⟨?_, by rw [e3]; exact hqold, fun hd => by
+      rw [e1] at hd ⊢; obtain ⟨hd', e, ht⟩ := hi.w hd; exact ⟨hd', e, traced_step ht hs⟩⟩
+    intro i pc hj hd
+    rw [e2] at hj
+    exact keep i pc hj hd (by simp) (by simp)
+  | consumer g' hg =>
+    refine ⟨fun i pc hj hd => keep i pc hj hd (by simp) (by simp), ?_, fun hd => by
+      obtain ⟨hd', e, ht⟩ := hi.w hd; exact ⟨hd', e, traced_step ht hs⟩⟩
+    show ∀ x ∈ g'.queue, _
+    have : g'.queue = b.g.queue := by rw [hg]
+    rw [this]; exact hqold
+  | advance d =>
+    exact ⟨fun i pc hj hd => keep i pc hj hd (by simp) (by simp), hqold, fun hd => by
+      obtain ⟨hd', e, ht⟩ := hi.w hd; exact ⟨hd', e, traced_step ht hs⟩⟩
+
+theorem prov_run {cfg : Cfg} {now : Nat} {seeds : List Nat} {clients : Nat} {sm : List (Nat × Nat)} {b : BState}
+    {h : List (BState × Act)} (k : Nat) (hrun : RunH { BState.init cfg now seeds clients with storeShard := sm } h b)
+    (hns : NoShutdownReq h) : Prov k h b := by
+  induction hrun with
+  | nil =>
+    refine ⟨?_, ?_, ?_⟩
+    · intro i pc hpc hd
+      have := List.mem_of_getElem? hpc
+      simp only [BState.init, List.mem_replicate] at this
+      rw [this.2] at hd; cases hd
+    · intro x hx; simp [BState.init, State.init] at hx
+    · intro hd; simp [BState.init, WPc.danger] at hd
+  | @step b1 b' h1 a o o' hrun' hs ih =>
+    have hns1 : NoShutdownReq h1 := fun p hp' => hns p (List.mem_cons_of_mem _ hp')
+    exact prov_step (ih hns1) (noShut_run hrun' hns1).1 hs
+
+/-- the call client `i` began at `p` has been ANSWERED as of the end of the history: it has returned, and if it returned
+    `Ok(ack hd)` the cell `hd` is no longer pending (answered on the spot, or by the worker's completion of the command) -/
+def AnsweredNow (h : List (BState × Act)) (b : BState) (i p : Nat) : Prop :=
+  ∃ q out, FirstRet h b i p q out ∧ ∀ hd st, out = .ack hd st → ∃ st', b.g.acks[hd]? = some st' ∧ st' ≠ .pending
+
+/-- **the bridge**: if every put / delete / value-carrying upsert of `k` begun so far has been answered, nothing
+    dangerous for `k` is under way -/
+theorem safe_of_answered {h : List (BState × Act)} {b : BState} {k : Nat} (hp : Prov k h b) (hH : HInv b)
+    (hans : ∀ p i r, Issued h i r p → r.danger k = true → AnsweredNow h b i p) : Safe k b := by
+  have traced_absurd : ∀ hd, Traced k h b hd → b.g.acks[hd]? = some .pending → False := by
+    rintro hd ⟨i, p, r, hiss, hrd, _, hret⟩ hpend
+    obtain ⟨q, out, hf, hack⟩ := hans p i r hiss hrd
+    obtain ⟨st', hs', hne⟩ := hack hd .pending (hret q out hf)
+    rw [hpend] at hs'; cases hs'; exact hne rfl
+  refine ⟨?_, ?_, ?_⟩
+  · intro i pc hpc
+    cases hd : pc.danger k with
+    | false => rfl
+    | true =>
+      obtain ⟨p, r, hiss, hrd, _, hnr⟩ := hp.cl i pc hpc hd
+      obtain ⟨q, out, hf, _⟩ := hans p i r hiss hrd
+      exact (hnr q out hf).elim
+  · intro x hx
+    cases hd : x.1.danger k with
+    | false => rfl
+    | true =>
+      obtain ⟨hd', e, ht⟩ := hp.queue x hx hd
+      exact (traced_absurd hd' ht (hH.queued hd' (mem_qHandles.mpr ⟨x.1, by rw [← e]; exact hx⟩))).elim
+  · cases hd : b.w.danger k with
+    | false => rfl
+    | true =>
+      obtain ⟨hd', e, ht⟩ := hp.w hd
+      exact (traced_absurd hd' ht (hH.held hd' e).1).elim
 
 end B
 end Cached
